@@ -101,6 +101,13 @@ def extract_fn(alpha, genome, k, strand):
             # (U is identified with T: the complement of U is A, whose complement is T)
             if _ut(str(loc.reverse_strand().extract_sequence())) != _ut(revcomp(got)):
                 return False
+            # ... and the flipped location (derived from an object whose sequence was already extracted) reads the PARENT's own bases: exactly the
+            # complemented parent characters, U included (no character that went through two complementations)
+            fl = loc.reverse_strand()
+            if str(fl.extract_sequence()) != expected(genome, [(b.start, b.end) for b in fl.blocks], strand.reverse()):
+                return False
+            if str(fl.reverse_strand().extract_sequence()) != expected(genome, [(b.start, b.end) for b in fl.reverse_strand().blocks], strand):
+                return False
             # splitting into consecutive relative sub-intervals splits the sequence
             for m in range(1, len(loc)):
                 a = loc.relative_interval_to_parent_location(0, m, PLUS)
